@@ -21,6 +21,7 @@ Python sources modelled (abbreviated; see each section):
                        a pass over an edge order, propagate_prior, node_moments
 -/
 import TsdateVerif.Model.Arr
+import TsdateVerif.Model.Constrain
 
 namespace Tsdate.Scale
 
@@ -611,5 +612,40 @@ def edgeLikelihoods (stats : List (α × α)) (mu : α) : List (α × α) :=
   stats.map (fun s => (s.1, s.2 * mu))
 
 end VLik
+
+/-! ## 5. a whole `inside_outside` run, as far as units are concerned -/
+
+section WholeRun
+variable {α : Type} [Inhabited α] [Add α] [Sub α] [Mul α] [Div α] [Neg α] [OfNat α 0] [OfNat α 1] [OfNat α 2]
+  [LE α] [DecidableLE α] [LT α] [DecidableLT α]
+
+/-- `mn_post[nonfixed[k]] = mean_k` on top of the fixed nodes' times -/
+def scatter (base : Array α) (idx : List Nat) (vals : List α) : Array α :=
+  (idx.zip vals).foldl (fun a iv => aset a iv.1 iv.2) base
+
+/-- the observable outputs of a run -/
+structure RunOut (α : Type) where
+  nodesTime : List α
+  mean : List α
+  var : List α
+
+/-- unit-carrying inputs of `tsdate.inside_outside`: those of the prior/likelihood construction and
+`min_branch_length` -/
+structure RunIn (α : Type) where
+  disc : DiscreteIn α
+  minBranch : α
+
+/-- `inside_outside` end to end: prior grid and likelihood tables → (arbitrary) inside/outside recursion
+→ `mean_var` on the grid → posterior means written over zeros (all samples are at time 0) →
+`_constrain_ages` (exact addition in the forced pass) → node times. -/
+def insideOutsideRun {β : Type} (two : α) (pmf : Nat → α → β) (cdfs : List (α → α))
+    (core : DiscreteFree α β → List (List α)) (nNodes : Nat) (nonfixed : List Nat)
+    (fixed : Array Bool) (es : List Edge) (iters : Nat) (inp : RunIn α) : RunOut α :=
+  let mv := insideOutsideOut core (discreteView two pmf cdfs inp.disc)
+  let means := scatter (Array.replicate nNodes 0) nonfixed (mv.map (fun x => x.1))
+  let t := constrainAges (fun x => x + inp.minBranch) (fun x => x + inp.minBranch) fixed inp.minBranch es means iters
+  { nodesTime := t.toList, mean := mv.map (fun x => x.1), var := mv.map (fun x => x.2) }
+
+end WholeRun
 
 end Tsdate.Scale
